@@ -111,6 +111,27 @@ func c12NestLists(x ap.Item) {
 	})
 }
 
+// c12CaseTypes spells the type names of up to four nodes in another letter case ("note", "PERSON": what other servers send, and
+// what the predicates take for the same type).
+func c12CaseTypes(x ap.Item) {
+	n := 0
+	vocab.Walk(x, 0, func(path string, depth int, node reflect.Value) {
+		if !node.CanSet() || n >= 4 {
+			return
+		}
+		f := node.FieldByName("Type")
+		if !f.IsValid() || f.Kind() != reflect.String || f.Len() == 0 {
+			return
+		}
+		n++
+		if n%2 == 0 {
+			f.SetString(strings.ToUpper(f.String()))
+		} else {
+			f.SetString(strings.ToLower(f.String()))
+		}
+	})
+}
+
 // c12EmptyTags gives the language lists of up to four nodes a second entry and puts one entry under the empty tag.
 func c12EmptyTags(x ap.Item) {
 	n := 0
@@ -432,6 +453,10 @@ var c12Gen = rapid.Custom(func(t *rapid.T) ap.Item {
 	if rapid.IntRange(0, 2).Draw(t, "plant-empty-tag") == 0 {
 		c12EmptyTags(x)
 	}
+	// now and then type names are spelt in another letter case: an operation that knows the usual spelling keeps it to itself
+	if rapid.IntRange(0, 3).Draw(t, "plant-case-types") == 0 {
+		c12CaseTypes(x)
+	}
 	// now and then a list holds a list as one of its members: operations that look through such a member look, they do not splice
 	if rapid.IntRange(0, 3).Draw(t, "plant-nested-lists") == 0 {
 		c12NestLists(x)
@@ -577,6 +602,9 @@ func c12ConcurrentValue(i int, seed int) ap.Item {
 		}
 		if i%3 == 2 {
 			c12NestLists(x)
+		}
+		if i%5 == 3 {
+			c12CaseTypes(x)
 		}
 		c12Spare(x)
 		return x
